@@ -197,6 +197,7 @@ def c02(ctx):
     ctx.sim("long", 8 if q else 120, LOOP, "MonLoop_C02.cfg", seed_off=2, nontrivial=has_genuine, conf=CONF, batch=4 if q else 20)
     # beyond the property: the channel's table of pending TCP connects (TcpTable.tla) - take / expire / evict, drift only
     ctx.model("mc/MC_TcpTable.tla", "MC_TcpTable.cfg", workers=6)
+    ctx.model("mc/MC_TcpTable.tla", "MC_TcpTable_noevict.cfg", workers=2, expect_violation="Bounded", label="MC_TcpTable_noevict (the defect repaired by F11 must show)")
     ctx.sim("tcp", 45 if q else 900, "conf/ConfTcp.tla", "ConfTcp.cfg", seed_off=4, extra_args=["--snap", "none"], drift_only=True, batch=45 if q else 150)
     # UDP paris / dublin without privileges (F28): refused at start, or every genuine response recognised
     ctx.sim("unpriv", 24 if q else 240, LOOP, "MonLoop_C02.cfg", seed_off=3)
